@@ -15,21 +15,22 @@ Proof. intros []; reflexivity. Qed.
 
 Lemma cert_equals_spec : forall c n, cert_equals c n = same_cert c n.
 Proof.
-  intros [kt k x] [kt' k' x']. unfold cert_equals, same_cert, comparable. cbn.
+  intros [kt k x e] [kt' k' x' e']. unfold cert_equals, same_cert, comparable. cbn.
   destruct kt, kt'; cbn; auto; destruct (Z.eqb k k'); cbn; auto.
 Qed.
 
-Lemma same_cert_eq : forall a b, same_cert a b = true -> a = b.
+(* Certificate.Equals sees key type, key and x509 identity -- not the expiry *)
+Lemma same_cert_id : forall a b, same_cert a b = true -> cert_id a = cert_id b.
 Proof.
-  intros [kt k x] [kt' k' x'] H. unfold same_cert in H. cbn in H.
+  intros [kt k x e] [kt' k' x' e'] H. unfold same_cert in H. cbn in H.
   repeat (apply andb_true_iff in H as [H ?]).
   assert (kt = kt') by (destruct kt, kt'; cbn in *; congruence || discriminate).
-  f_equal; auto; now apply Z.eqb_eq.
+  unfold cert_id. cbn. repeat f_equal; auto; now apply Z.eqb_eq.
 Qed.
 
 Lemma same_cert_refl : forall a, comparable a = true -> same_cert a a = true.
 Proof.
-  intros [kt k x] H. unfold same_cert. cbn in *. rewrite H, !Z.eqb_refl. now destruct kt.
+  intros [kt k x e] H. unfold same_cert. cbn in *. rewrite H, !Z.eqb_refl. now destruct kt.
 Qed.
 
 Lemma certs_equal_spec : forall new cur,
@@ -41,11 +42,11 @@ Proof.
   rewrite cert_equals_spec. destruct (same_cert c n); cbn; auto.
 Qed.
 
-Lemma list_cert_same_eq : forall a b, list_cert_same a b = true -> a = b.
+Lemma list_cert_same_ids : forall a b, list_cert_same a b = true -> map cert_id a = map cert_id b.
 Proof.
   unfold list_cert_same. induction a as [|x xs IH]; intros [|y ys] H; cbn in *; try discriminate; auto.
   apply andb_true_iff in H as [H1 H2]. apply andb_true_iff in H2 as [H2 H3].
-  apply same_cert_eq in H2. subst. f_equal. apply IH. now rewrite H1, H3.
+  apply same_cert_id in H2. rewrite H2. f_equal. apply IH. now rewrite H1, H3.
 Qed.
 
 Lemma list_cert_same_refl : forall a, forallb comparable a = true -> list_cert_same a a = true.
@@ -58,9 +59,12 @@ Qed.
 
 (* position by position *)
 Lemma list_cert_same_nth : forall a b i c n,
-  list_cert_same a b = true -> nth_error a i = Some c -> nth_error b i = Some n -> c = n.
+  list_cert_same a b = true -> nth_error a i = Some c -> nth_error b i = Some n ->
+  cert_id c = cert_id n.
 Proof.
-  intros a b i c n H Ha Hb. apply list_cert_same_eq in H. subst. congruence.
+  intros a b i c n H Ha Hb. apply list_cert_same_ids in H.
+  apply (map_nth_error cert_id) in Ha. apply (map_nth_error cert_id) in Hb.
+  rewrite H in Ha. congruence.
 Qed.
 
 (* each block either rejects with InvalidModification, leaving the stored
@@ -74,6 +78,7 @@ Proof.
   apply String.eqb_eq in B. rewrite B. now rewrite with_identity_id.
 Qed.
 
+(* the certificate block only compares: reject, or go on with nothing assigned *)
 Lemma sc_certs_spec : forall c new,
   sc_certs c new = if changes_certs c new then (c, Err E_modification) else (c, Ok tt).
 Proof.
@@ -83,9 +88,6 @@ Proof.
   destruct (Nat.eqb (List.length (certs c)) (List.length (n :: ns))) eqn:L; cbn [negb andb]; auto.
   apply Nat.eqb_eq in L. rewrite (certs_equal_spec _ _ L).
   destruct (forallb (fun p => same_cert (fst p) (snd p)) (combine (certs c) (n :: ns))) eqn:F; cbn [negb]; auto.
-  assert (E : certs c = n :: ns).
-  { apply list_cert_same_eq. unfold list_cert_same. rewrite F. apply Nat.eqb_eq in L. now rewrite L. }
-  rewrite <- E. now rewrite with_certs_id.
 Qed.
 
 Lemma sc_bundle_spec : forall c new,
@@ -255,25 +257,85 @@ Lemma closed_rejects : forall hl cur new,
   set_configuration true hl cur new = (cur, Err E_state).
 Proof. reflexivity. Qed.
 
+(* ---------- initConfiguration and the clock ---------- *)
+Lemma check_expiry_spec : forall now l,
+  check_expiry now l = negb (existsb (cert_expired now) l).
+Proof.
+  induction l as [|c more IH]; cbn; auto. destruct (cert_expired now c); cbn; auto.
+Qed.
+
+(* the IsZero arm: a certificate whose Expires() is the zero time never expires *)
+Lemma zero_expiry_never_expired : forall now c, c_expires c = 0%Z -> cert_expired now c = false.
+Proof. intros now c H. unfold cert_expired. now rewrite H. Qed.
+
+Lemma cert_expired_iff : forall now c,
+  cert_expired now c = true <-> (c_expires c <> 0 /\ c_expires c < now)%Z.
+Proof.
+  intros now c. unfold cert_expired. rewrite andb_true_iff, negb_true_iff, Z.eqb_neq, Z.ltb_lt. tauto.
+Qed.
+
+(* an expired certificate anywhere in the list: NewPeerConnection fails with
+   InvalidAccess, whatever else the configuration holds *)
+Lemma init_rejects_expired : forall now c,
+  existsb (cert_expired now) (certs c) = true -> init_configuration now c = Err E_access.
+Proof.
+  intros now c H. unfold init_configuration. rewrite check_expiry_spec, H. reflexivity.
+Qed.
+
+Lemma init_ok_inv : forall now c c', init_configuration now c = Ok c' ->
+  existsb (cert_expired now) (certs c) = false /\
+  certs c' = match certs c with [] => [generated_cert now] | l => l end /\
+  bundle c' = (if Z.eqb (bundle c) 0 then bundle default_config else bundle c) /\
+  rtcpmux c' = (if Z.eqb (rtcpmux c) 0 then rtcpmux default_config else rtcpmux c) /\
+  pool c' = (if N.eqb (pool c) 0 then pool default_config else pool c) /\
+  (negb (N.eqb (pool c) 0) && N.ltb 1 (pool c) = false).
+Proof.
+  intros now c c' H. unfold init_configuration in H. rewrite check_expiry_spec, negb_involutive in H.
+  destruct (existsb (cert_expired now) (certs c)); [discriminate|].
+  destruct (negb (N.eqb (pool c) 0) && N.ltb 1 (pool c)) eqn:P; [discriminate|].
+  destruct (servers c) as [|s l].
+  - injection H as <-. cbn. auto 10.
+  - destruct (validate_all (s :: l)) as [[]|e|]; try discriminate. injection H as <-. cbn. auto 10.
+Qed.
+
+(* no stored certificate is expired at the instant initConfiguration read *)
+Lemma init_stored_unexpired : forall now c c', init_configuration now c = Ok c' ->
+  existsb (cert_expired now) (certs c') = false.
+Proof.
+  intros now c c' H. apply init_ok_inv in H as (E & C & _). rewrite C.
+  destruct (certs c) as [|x l]; auto.
+  cbn. unfold cert_expired, generated_cert, generated_validity. cbn [c_expires].
+  replace (Z.ltb (now + 27 * 86400 * 1000000000) now) with false by (symmetry; apply Z.ltb_ge; lia).
+  now rewrite andb_false_r.
+Qed.
+
 (* initConfiguration leaves no zero values in the immutable policies *)
-Lemma init_nonzero : forall c c', init_configuration c = Ok c' ->
+Lemma init_nonzero : forall now c c', init_configuration now c = Ok c' ->
   bundle c' <> 0%Z /\ rtcpmux c' <> 0%Z /\ certs c' <> [] /\ (pool c' = 0 \/ pool c' = 1)%N.
 Proof.
-  intros c c' H. unfold init_configuration in H.
-  destruct (negb (N.eqb (pool c) 0) && N.ltb 1 (pool c)) eqn:P; [discriminate|].
-  assert (PL : ((if N.eqb (pool c) 0 then pool default_config else pool c) = 0 \/
-                (if N.eqb (pool c) 0 then pool default_config else pool c) = 1)%N).
-  { destruct (N.eqb (pool c) 0) eqn:Z; [left; reflexivity|]. cbn in P.
-    apply N.ltb_ge in P. apply N.eqb_neq in Z. right. lia. }
-  assert (B : (if Z.eqb (bundle c) 0 then bundle default_config else bundle c) <> 0%Z).
-  { destruct (Z.eqb (bundle c) 0) eqn:Z; [cbn; discriminate|]. now apply Z.eqb_neq in Z. }
-  assert (R : (if Z.eqb (rtcpmux c) 0 then rtcpmux default_config else rtcpmux c) <> 0%Z).
-  { destruct (Z.eqb (rtcpmux c) 0) eqn:Z; [cbn; discriminate|]. now apply Z.eqb_neq in Z. }
-  assert (C : match certs c with [] => [generated_cert] | l => l end <> []).
-  { destruct (certs c); discriminate. }
-  destruct (servers c) as [|s l].
-  - injection H as <-. cbn. auto.
-  - destruct (validate_all (s :: l)) as [[]|e|]; try discriminate. injection H as <-. cbn. auto.
+  intros now c c' H. apply init_ok_inv in H as (_ & C & B & R & PL & P).
+  rewrite C, B, R, PL. repeat split.
+  - destruct (Z.eqb (bundle c) 0) eqn:Z; [cbn; discriminate|]. now apply Z.eqb_neq in Z.
+  - destruct (Z.eqb (rtcpmux c) 0) eqn:Z; [cbn; discriminate|]. now apply Z.eqb_neq in Z.
+  - destruct (certs c); discriminate.
+  - destruct (N.eqb (pool c) 0) eqn:Z; [left; reflexivity|]. cbn in P.
+    apply N.ltb_ge in P. apply N.eqb_neq in Z. right. lia.
+Qed.
+
+(* SetConfiguration has no expiry check and no clock: naming the stored
+   configuration again succeeds and changes nothing, also when every stored
+   certificate has expired since NewPeerConnection *)
+Lemma same_configuration_accepted : forall hl cur,
+  forallb comparable (certs cur) = true -> servers_valid (servers cur) = true ->
+  set_configuration false hl cur cur = (cur, Ok tt).
+Proof.
+  intros hl cur HC HS. rewrite set_configuration_spec.
+  assert (CI : changes_immutable hl cur cur = false).
+  { unfold changes_immutable, changes_identity, changes_certs, changes_bundle, changes_rtcpmux, changes_pool.
+    rewrite String.eqb_refl, !Z.eqb_refl, N.eqb_refl. rewrite !andb_false_r. cbn [orb andb negb].
+    destruct (certs cur) eqn:E; auto. rewrite <- E in *. now rewrite list_cert_same_refl. }
+  rewrite CI, validate_all_spec, HS. f_equal. unfold mutable_tail. destruct cur. cbn.
+  now destruct always_dc.
 Qed.
 
 Lemma servers_atomic_anywhere : forall hl cur new (a : list server) s b,
@@ -286,11 +348,11 @@ Proof.
 Qed.
 
 (* ---------- certificates: identity is the x509 certificate with its key ---------- *)
-(* naming, at some position, a certificate that is not the stored one -- another
-   x509 certificate for the same key, the same x509 certificate with another
-   key, anything -- is a change and is rejected *)
+(* naming, at some position, a certificate that Equals can tell from the stored
+   one -- another x509 certificate for the same key, the same x509 certificate
+   with another key, anything -- is a change and is rejected *)
 Lemma other_certificate_rejected : forall hl cur new i c n,
-  nth_error (certs cur) i = Some c -> nth_error (certs new) i = Some n -> c <> n ->
+  nth_error (certs cur) i = Some c -> nth_error (certs new) i = Some n -> cert_id c <> cert_id n ->
   set_configuration false hl cur new = (cur, Err E_modification).
 Proof.
   intros hl cur new i c n Hc Hn Hne. apply change_rejected.
@@ -307,7 +369,8 @@ Lemma same_key_other_x509_rejected : forall hl cur new i c n,
   c_x509 c <> c_x509 n ->
   set_configuration false hl cur new = (cur, Err E_modification).
 Proof.
-  intros hl cur new i c n Hc Hn Hx. eapply other_certificate_rejected; eauto. congruence.
+  intros hl cur new i c n Hc Hn Hx. eapply other_certificate_rejected; eauto.
+  unfold cert_id. congruence.
 Qed.
 
 (* the stored list named again (certificates pion can compare) is no change *)
@@ -320,10 +383,19 @@ Qed.
 
 Lemma certificate_identity : forall hl cur new i c n,
   nth_error (certs cur) i = Some c -> nth_error (certs new) i = Some n ->
-  (c <> n -> set_configuration false hl cur new = (cur, Err E_modification)) /\
+  (cert_id c <> cert_id n -> set_configuration false hl cur new = (cur, Err E_modification)) /\
   (c_x509 c <> c_x509 n -> set_configuration false hl cur new = (cur, Err E_modification)).
 Proof.
   intros hl cur new i c n Hc Hn. split.
   - exact (other_certificate_rejected hl cur new i c n Hc Hn).
   - exact (same_key_other_x509_rejected hl cur new i c n Hc Hn).
+Qed.
+
+(* the expiry is the one thing Equals does not look at: a named certificate
+   that differs from the stored one ONLY there is accepted *)
+Lemma expiry_not_compared : forall c n,
+  cert_id c = cert_id n -> cert_equals c n = cert_equals c c.
+Proof.
+  intros [kt k x e] [kt' k' x' e'] H. unfold cert_id in H. cbn in H.
+  injection H as -> -> ->. reflexivity.
 Qed.
